@@ -65,7 +65,8 @@ class Exec:
         self.methods = npmodels.METHODS
         self.spec_builtins = npmodels.SPEC_BUILTINS
         self.spec_consts = npmodels.SPEC_CONSTS
-        from . import specs, objmodels  # noqa: F401  (registers models)
+        from . import specs, objmodels, arrmodels  # noqa: F401  (registers models)
+        self._arrm = arrmodels
         specs.install(self.spec_builtins)
 
     # ------------------------------------------------------------------ path machinery
@@ -149,6 +150,9 @@ class Exec:
     def oblige(self, kind, goal, clause, node=None, tag=None, static=None, backend="z3"):
         if not self.emitting:
             return None
+        if getattr(self, "_spec_depth", 0) > 0:
+            # contract clauses are total spec-level terms: no index / shape obligations arise from evaluating them
+            return None
         fr = self.frames[0] if self.frames else None
         loc = loc_of(self.frames[-1], node) if (node is not None and self.frames) else None
         if isinstance(goal, bool) and "canary" not in kind:
@@ -191,6 +195,9 @@ class Exec:
                     continue
                 self.frames.append(fr)
                 try:
+                    # proof hint: exhaustive case split at entry (sound: both branches of every condition are explored)
+                    for cl in contract.options.get("split", []):
+                        self.decide(to_z3(self.eval_clause(cl, env, None), "bool"))
                     try:
                         self.exec_block(info.body, env, fr)
                         result, exc = None, None
@@ -243,8 +250,11 @@ class Exec:
         cenv["result"] = result
         if extra:
             cenv.update(extra)
-        fr = Frame(self.frames[-1].info if self.frames else None, None) if False else None
-        v = self.eval(node, cenv, _SpecFrame(self))
+        self._spec_depth = getattr(self, "_spec_depth", 0) + 1
+        try:
+            v = self.eval(node, cenv, _SpecFrame(self))
+        finally:
+            self._spec_depth -= 1
         if isinstance(v, Small):
             v = and_vals(v.flat())
         return v
@@ -808,7 +818,7 @@ class Exec:
         c = truth(self.eval(n.test, env, fr))
         if isinstance(c, bool):
             return self.eval(n.body if c else n.orelse, env, fr)
-        if _has_call(n.body) or _has_call(n.orelse):
+        if not isinstance(fr, _SpecFrame) and (_has_call(n.body) or _has_call(n.orelse)):
             # a branch with calls may raise / have obligations valid only under the guard: fork
             if self.decide(c):
                 return self.eval(n.body, env, fr)
@@ -836,7 +846,7 @@ class Exec:
                     return v if not vals else or_vals(vals + [True])
                 continue
             # symbolic: if later operands have calls (could raise / index), fork to keep short-circuit semantics
-            if not last and any(_has_call(x) or _has_subscript(x) for x in n.values[i + 1:]):
+            if not isinstance(fr, _SpecFrame) and not last and any(_has_call(x) or _has_subscript(x) for x in n.values[i + 1:]):
                 d = self.decide(t)
                 if is_and and not d:
                     return False
@@ -880,7 +890,7 @@ class Exec:
             return a + b
         if isinstance(a, str) or isinstance(b, str):
             return "<str>"
-        if isinstance(a, (Arr, Small)) or isinstance(b, (Arr, Small)):
+        if isinstance(a, (Arr, Small, V.Masked)) or isinstance(b, (Arr, Small, V.Masked)):
             kind = None
             if op == "/":
                 kind = "real"
@@ -890,6 +900,8 @@ class Exec:
         return arith(op, a, b)
 
     def elementwise2(self, a, b, fn, kind=None):
+        if isinstance(a, V.Masked) or isinstance(b, V.Masked):
+            return self._arrm.masked_binop(self, a, b, fn, kind)
         if isinstance(a, Arr) or isinstance(b, Arr):
             arr = a if isinstance(a, Arr) else b
             if isinstance(a, Arr) and isinstance(b, Arr):
@@ -951,7 +963,7 @@ class Exec:
             if isinstance(op, (ast.In, ast.NotIn)):
                 r = self.contains(right, left, n, fr)
                 r = r if isinstance(op, ast.In) else not_val(r)
-            elif isinstance(left, (Arr, Small)) or isinstance(right, (Arr, Small)):
+            elif isinstance(left, (Arr, Small, V.Masked)) or isinstance(right, (Arr, Small, V.Masked)):
                 r = self.elementwise2(left, right, lambda x, y, op=op: compare(op, x, y), "bool")
             else:
                 r = compare(op, left, right)
@@ -1071,6 +1083,8 @@ class Exec:
             return self.index_small(base, idx, n)
         if isinstance(base, Arr):
             return self.index_arr(base, idx, n)
+        if isinstance(base, V.Masked):
+            raise Unsupported("indexing a compressed array")
         if isinstance(base, SymDict):
             (k,) = idx
             if not isinstance(k, str):
@@ -1157,10 +1171,14 @@ class Exec:
             idx.append(_SliceVal(None, None, None))
         if len(idx) > a.rank:
             raise PathRaise("IndexError", n)
-        # boolean mask a[mask]
-        if len([i for i in idx if isinstance(i, Arr)]) == 1 and isinstance(idx[0], Arr) and idx[0].kind == "bool":
+        # boolean mask a[mask] / a[mask, 0] / a[..., mask]
+        if any(isinstance(i, Arr) and i.kind == "bool" for i in idx):
             h = self.models.get("__mask_select__")
-            return h(self, [a, idx[0]] + idx[1:], {}, n)
+            return h(self, [a] + idx, {}, n)
+        if any(isinstance(i, V.Masked) for i in idx):
+            return self._arrm.gather_masked(self, a, idx, n)
+        if isinstance(a, V.Masked):
+            raise Unsupported("indexing a compressed array")
         out_shape = []
         sel = []  # per base dim: ('fix', term) | ('map', fn(outidx)->term, out_dim_pos)
         gather = [i for i in idx if isinstance(i, Arr)]
